@@ -203,6 +203,9 @@ func (r *Run) verifAPI(fn *ssa.Function, args []Value) (Value, bool) {
 		ev.terms = append([]*Term{}, r.regionBytes(s.P, s.Len)...)
 		r.events = append(r.events, ev)
 		return Tuple{}, true
+	case "verifNoValidate":
+		r.noValidate = true
+		return Tuple{}, true
 	case "verifUnwind":
 		r.unwind = int(r.concretizeSigned(args[0].(*Term), "verifUnwind"))
 		return Tuple{}, true
@@ -264,6 +267,20 @@ func (r *Run) verifAPI(fn *ssa.Function, args []Value) (Value, bool) {
 		a := r.asPtr(r.firstWordOfAny(args[0]))
 		b := r.asPtr(r.firstWordOfAny(args[1]))
 		return ts.BoolConst(a.Obj != nil && a.Obj == b.Obj), true
+	case "verifTypeNodes":
+		tag := r.strArg(args[0])
+		n := int(r.concretizeSigned(args[1].(*Term), "verifTypeNodes n"))
+		vals := r.newSymNodes(tag, n)
+		it := r.namedType("reflect", "Type")
+		o := r.newArrayObject(it, int64(n), KHeap, "typenodes")
+		for i, v := range vals {
+			r.storeT(Ptr{Obj: o, Off: int64(16 * i)}, it, v)
+		}
+		return SliceV{P: Ptr{Obj: o}, Len: int64(n), Cap: int64(n)}, true
+	case "verifOwn":
+		// hand the objects reachable from the argument to the operation under test
+		r.markOwned(args[0])
+		return Tuple{}, true
 	case "verifShare":
 		// mark everything reachable from the argument as shared (C12)
 		r.markShared(args[0])
@@ -346,6 +363,9 @@ func (r *Run) rtypeArg(v Value, what string) types.Type {
 	p := r.asPtr(v)
 	if p.Obj == nil || p.Obj.Kind != KRType || p.Off != 0 {
 		r.fail("bad-pointer", what+": argument is not a runtime type descriptor", p.String())
+	}
+	if p.Obj.RT == nil {
+		r.engineFail("%s on a symbolic type descriptor", what)
 	}
 	return p.Obj.RT
 }
@@ -708,6 +728,10 @@ func inPoolGet(r *Run, fn *ssa.Function, args []Value) Value {
 		nl := append([]Value{}, list[:c-1]...)
 		nl = append(nl, list[c:]...)
 		r.poolItems[k] = nl
+		if r.monitor {
+			// the pool hands an object to exactly one goroutine
+			r.markOwned(v)
+		}
 		return v
 	}
 	// call New
